@@ -104,7 +104,8 @@ class RepeatingEventBase(EventBase):
                 'scheme_id_uri': self.schemeIdUri,
                 'timescale': self.timescale,
                 'event_duration': self.duration,
-                'event_id': event_id,
+                # the emsg id field is 32 bits wide
+                'event_id': event_id & 0xFFFFFFFF,
                 'value': self.value,
                 'data': data,
             }
